@@ -558,6 +558,10 @@ Proof.
   - intros g1 g2 gc1 gc2 c0 H1 H2 F1 F2. destruct (Hold _ _ H1) as [Hn1 H1']. destruct (Hold _ _ H2) as [Hn2 H2']. eauto.
 Qed.
 
+(* a repeated Unblock of a released block changes nothing *)
+Lemma step_inv_greleaseagain s g s' : Inv s -> step s (AGReleaseAgain g) = Some s' -> Inv s'.
+Proof. intros I H. open_step H. exact I. Qed.
+
 Theorem step_inv s a s' : Inv s -> step s a = Some s' -> Inv s'.
 Proof.
   destruct a.
@@ -573,6 +577,7 @@ Proof.
   - apply step_inv_gend.
   - apply step_inv_gstore.
   - apply step_inv_grelease.
+  - apply step_inv_greleaseagain.
 Qed.
 
 Lemma steps_inv l : forall s s', Inv s -> steps s l = Some s' -> Inv s'.
@@ -787,4 +792,75 @@ Theorem accepts_exactly_once tr : accepts tr = true ->
 Proof.
   unfold accepts. destruct (replay tr) as [s|n] eqn:E; [|discriminate]. intros _.
   exists s. split; [reflexivity|]. pose proof (replay_reachable tr s E) as R. split; [exact R|apply exactly_once_obs; exact R].
+Qed.
+
+(* ---------------- repeated releases (Unblock called again on a released block) ---------------- *)
+(* [reachable] quantifies over ALL action lists, so every theorem above already covers the
+   interleavings that contain repeated releases; the statements below say what a repeated release is
+   (nothing), that it can be inserted wherever its goroutine is outside a block, and that a run with
+   any number of them ends in exactly the state of the run without them. *)
+Theorem release_again_noop s g s' : step s (AGReleaseAgain g) = Some s' -> s' = s /\ ~ in_block s g.
+Proof.
+  unfold step. destruct (alookup g (gors s)) as [gc|] eqn:Hg; [discriminate|]. intros H. inversion H; subst.
+  split; [reflexivity|]. intros [gc Hgc]. congruence.
+Qed.
+
+Theorem release_again_enabled s g : ~ in_block s g -> step s (AGReleaseAgain g) = Some s.
+Proof.
+  intros Hn. unfold step. destruct (alookup g (gors s)) as [gc|] eqn:Hg; [|reflexivity].
+  exfalso. apply Hn. exists gc. exact Hg.
+Qed.
+
+Definition is_again (a : action) : bool := match a with AGReleaseAgain _ => true | _ => false end.
+Definition without_repeats (l : list action) : list action := filter (fun a => negb (is_again a)) l.
+
+Lemma steps_without_repeats l : forall s s', steps s l = Some s' -> steps s (without_repeats l) = Some s'.
+Proof.
+  induction l as [|a r IH]; intros s s' H; [exact H|].
+  cbn [steps] in H. destruct (step s a) as [s1|] eqn:E; [|discriminate].
+  unfold without_repeats. cbn [filter]. destruct (is_again a) eqn:A; cbn [negb].
+  - destruct a; try discriminate. apply release_again_noop in E. destruct E as [-> _].
+    apply IH. exact H.
+  - cbn [steps]. rewrite E. apply IH. exact H.
+Qed.
+
+Theorem repeated_release_insert l1 l2 s1 s g :
+  steps init l1 = Some s1 -> ~ in_block s1 g -> steps s1 l2 = Some s ->
+  steps init (l1 ++ AGReleaseAgain g :: l2) = Some s.
+Proof.
+  intros H1 Hn H2. rewrite (steps_app l1 init s1 _ H1). cbn [steps].
+  rewrite (release_again_enabled s1 g Hn). exact H2.
+Qed.
+
+Theorem repeated_release_harmless l s : steps init l = Some s ->
+  steps init (without_repeats l) = Some s /\
+  readers s = length (gors s) /\
+  exactly_once_b (obs_of_state s) = true /\
+  (forall p c, In p (active s) -> In c (store s) ->
+     ((In c (snapshot_of s p) /\ ~ In (p, c) (recv s)) \/ (~ In c (snapshot_of s p) /\ In (p, c) (recv s)))
+     /\ count_occ pair_dec (recv s) (p, c) <= 1) /\
+  ((0 < readers s)%nat ->
+     (forall p, ~ in_exclusive s p) /\
+     (forall p, step s (APAcquire p) = None /\ step s (APSnapshot p) = None /\ step s (APActivate p) = None)).
+Proof.
+  intros H. assert (R : reachable s) by (exists l; exact H).
+  split; [apply steps_without_repeats; exact H|].
+  split; [apply (i_readers s (reachable_inv s R))|].
+  split; [apply exactly_once_obs; exact R|].
+  split; [intros p c; apply exactly_once; exact R|].
+  apply blocked_while_held. exact R.
+Qed.
+
+(* a repeated release while another goroutine holds a block: that block stays held, and every
+   registration stays out, in the state after the repeated release as well *)
+Theorem release_again_keeps_blocked s g h s' : reachable s -> in_block s h ->
+  step s (AGReleaseAgain g) = Some s' ->
+  g <> h /\ in_block s' h /\ readers s' = readers s /\ (0 < readers s')%nat /\
+  (forall p, ~ in_exclusive s' p) /\
+  (forall p, step s' (APAcquire p) = None /\ step s' (APSnapshot p) = None /\ step s' (APActivate p) = None).
+Proof.
+  intros R Hh H. destruct (release_again_noop s g s' H) as [-> Hn].
+  destruct (lock_invariant s R) as (_ & _ & _ & _ & Hb). destruct (Hb h Hh) as [_ Hr].
+  split; [intros ->; contradiction|]. split; [exact Hh|]. split; [reflexivity|]. split; [exact Hr|].
+  apply blocked_while_held; assumption.
 Qed.
